@@ -262,7 +262,7 @@ def cases(draw, kmax=120):
     levels = draw(st.sampled_from([1, 1, 2]))
     case = {
         't0': float(t0), 'dt': float(dt), 'Tend': float(Tend), 'tend_mode': mode, 'num_procs': num_procs, 'levels': levels,
-        'maxiter': draw(st.integers(1, 2)), 'jac': draw(st.booleans()), 'num_nodes': draw(st.integers(1, 3)), 'lam': draw(S.small_float(-2, 0.5)),
+        'maxiter': draw(st.integers(1, 2)), 'jac': draw(st.booleans()), 'num_nodes': draw(st.integers(1, 3)), 'lam': draw(S.small_float(-2, 0.0)),  # not positive: I - dt*q*lam of the dense fixture solve must not become singular for any drawn dt
         'u0': draw(S.small_float(-2, 2)), 'predict': draw(st.sampled_from([None, 'fine_only', 'pfasst_burnin'])) if levels > 1 else None,
         'script': None, 'max_restarts': None,
     }  # fmt: skip
